@@ -340,6 +340,14 @@ func checkCacheLocking(p *Prog, r *Report) {
 				released := false
 				for _, d := range Deferred(fn) {
 					cf := calleeFull(&d.Call)
+					// `defer func() { mu.Unlock() }()`: an unconditional unlock in the literal's entry block
+					if cl := StaticCallee(&d.Call); cl != nil && cl.Parent() == fn && len(cl.Blocks) > 0 {
+						for _, in := range cl.Blocks[0].Instrs {
+							if c, isC := in.(*ssa.Call); isC && strings.Contains(calleeFull(&c.Call), "nlock") {
+								cf = calleeFull(&c.Call)
+							}
+						}
+					}
 					if (cur.kind == "W" && (cf == "(*sync.RWMutex).Unlock" || cf == "(*sync.Mutex).Unlock")) || (cur.kind == "R" && cf == "(*sync.RWMutex).RUnlock") {
 						released = true
 					}
@@ -374,6 +382,9 @@ func checkCacheLocking(p *Prog, r *Report) {
 							key, write = t.Call.Args[1], true
 						}
 					case *ssa.Store:
+						if _, isSpill := t.Addr.(*ssa.Alloc); isSpill {
+							break // a parameter or local spilled to a cell because a closure captures it
+						}
 						if derivesFromParam(t.Addr, fn.Params[0], 0) {
 							if held(s.ord[in]) != "W" {
 								okL, whyL = false, "receiver state is written without the write lock (data race between the packet workers)"
